@@ -25,6 +25,7 @@ Oracles   : inverse(forward(x)) ~ x and forward(inverse(z)) ~ z;
 """
 import logging
 import math
+import os
 import shutil
 import tempfile
 
@@ -232,10 +233,52 @@ def _nessai(name, case, fn, *a, **kw):
 
 
 # ---------------------------------------------------------- flow: building
+_LEARNABLE = None
+
+
+def _learnable_class():
+    """A user-defined base distribution with learnable parameters (diagonal
+    normal): `distribution` accepts a Distribution class or instance."""
+    global _LEARNABLE
+    if _LEARNABLE is None:
+        import torch
+        from glasflow.nflows.distributions import Distribution
+
+        class LearnableNormal(Distribution):
+            def __init__(self, shape):
+                super().__init__()
+                self._shape = torch.Size(shape)
+                d = int(self._shape[0])
+                self.loc = torch.nn.Parameter(torch.zeros(1, d))
+                self.log_scale = torch.nn.Parameter(torch.zeros(1, d))
+
+            def _log_prob(self, inputs, context):
+                u = (inputs - self.loc) * torch.exp(-self.log_scale)
+                d = int(self._shape[0])
+                return (-0.5 * torch.sum(u * u, dim=1)
+                        - torch.sum(self.log_scale)
+                        - 0.5 * d * math.log(2 * math.pi))
+
+            def _sample(self, num_samples, context):
+                eps = torch.randn(num_samples, int(self._shape[0]),
+                                  dtype=self.loc.dtype,
+                                  device=self.loc.device)
+                return self.loc + torch.exp(self.log_scale) * eps
+
+        _LEARNABLE = LearnableNormal
+    return _LEARNABLE
+
+
 def _flow_config(case):
     cfg = dict(case["cfg"])
     if cfg.get("mask") is not None:
         cfg["mask"] = np.array(cfg["mask"], dtype=float)
+    dist = cfg.get("distribution")
+    if dist == "vf:learnable-instance":
+        cfg["distribution"] = _learnable_class()(
+            [int(cfg.get("n_inputs") or case["dims"])])
+    elif dist == "vf:learnable-class":
+        cfg["distribution"] = _learnable_class()
     return cfg
 
 
@@ -518,6 +561,34 @@ def _check_flow(case, out, dname, dtype):
     )
     n_bn = _has_fresh_batchnorm(model)
     meas["fresh_bn_layers"] = n_bn
+
+    # ---- 0. the weights file a training leaves behind holds the trained
+    # flow: a second FlowModel that loads it (what a resumed run does)
+    # reports the same latent points and densities
+    wf = getattr(fm, "weights_file", None)
+    if case["state"] in ("trained", "retrained") and wf and \
+            os.path.exists(wf) and not _svd_degenerate(cfg):
+        from nessai.flowmodel import FlowModel
+
+        fm2 = _nessai(
+            "FlowModel.__init__", case, FlowModel,
+            flow_config=_flow_config(case),
+            training_config=_training_config(case),
+            output=os.path.join(out, "reloaded"),
+        )
+        _nessai("FlowModel.load_weights", case, fm2.load_weights, wf)
+        za, lpa = _nessai("FlowModel.forward_and_log_prob", case,
+                          fm.forward_and_log_prob, x)
+        zb, lpb = _nessai("FlowModel.forward_and_log_prob", case,
+                          fm2.forward_and_log_prob, x)
+        ck.close("reloaded-weights:forward", zb, za, exact,
+                 "latent points from a FlowModel that loaded the weights "
+                 "file written by train() vs the trained FlowModel")
+        if cfg.get("distribution") != "uniform":
+            ck.close("reloaded-weights:log_prob", lpb, lpa, exact,
+                     "log_prob from a FlowModel that loaded the weights file "
+                     "written by train() vs the trained FlowModel")
+        meas["reloaded"] = True
 
     # ---- 1. finite values and round trip in the data space
     z, lp = _nessai(
@@ -1112,7 +1183,7 @@ def _check_ifp(case, out, dname, dtype):
     reparam = case["reparam"]
     ifp = _nessai(
         "ImportanceFlowProposal.__init__", case, ImportanceFlowProposal,
-        model, out, flow_config=dict(case["cfg"]),
+        model, out, flow_config=_flow_config(case),
         training_config=_training_config(case),
         reparameterisation=reparam, weighted_kl=bool(case["weighted_kl"]),
         reset_flow=case["reset_flow"], clip=bool(case["clip"]),
@@ -1121,6 +1192,7 @@ def _check_ifp(case, out, dname, dtype):
     _nessai("ImportanceFlowProposal.initialise", case, ifp.initialise)
     rs = np.random.RandomState((case["seed"] + 4) % (2**32))
     n_train = int(case["n_train"])
+    earlier = []
     for i in range(n_train):
         _seed(case["seed"] + 20 + i)
         samples = model.sample_unit_hypercube(int(case["n_live"]))
@@ -1144,6 +1216,28 @@ def _check_ifp(case, out, dname, dtype):
             ifp.update_proposal_weights,
             {j - 1: float(wraw[j]) for j in range(i + 2)},
         )
+        if i < n_train - 1 and case.get("draw_each_level"):
+            # what the sampler does at every level: draw from the newest
+            # proposal and store the per-proposal densities with the samples
+            _seed(case["seed"] + 40 + i)
+            calls = [0]
+            sample_ith = ifp.flow.sample_ith
+
+            def counted_level(*a, _c=calls, _f=sample_ith, **kw):
+                _c[0] += 1
+                if _c[0] > MAX_DRAW_BATCHES:
+                    raise _Starved()
+                return _f(*a, **kw)
+
+            ifp.flow.sample_ith = counted_level
+            try:
+                xe, lqe = _nessai(
+                    "ImportanceFlowProposal.draw", case, ifp.draw, 8)
+                earlier.append((i, xe.copy(), np.array(lqe, copy=True)))
+            except _Starved:
+                pass
+            finally:
+                del ifp.flow.sample_ith
     weights = ifp.weights_array
     n_prop = n_train + 1
     flow_number = None
@@ -1250,6 +1344,35 @@ def _check_ifp(case, out, dname, dtype):
         ifp.compute_meta_proposal_from_log_q(log_q[ok]), x["logQ"][ok], tol,
         sens=sens_q[ok],
     )
+    # (iv) densities attached to points generated at earlier levels vs the
+    # same points passed forwards now, after further proposals were trained
+    # (a proposal, once trained, is fixed)
+    for lvl, xe, lqe in earlier:
+        xue = np.stack([xe[n] for n in model.names], -1).astype(float)
+        oke = (np.minimum(xue, 1 - xue) > 1e-6).all(axis=1)
+        if not oke.any():
+            continue
+        if reparam == "logit":
+            xpe = np.log(xue) - np.log1p(-xue)
+        else:
+            xpe = xue.copy()
+        k = lqe.shape[1]
+        se = np.zeros((len(xue), k))
+        for j in range(k - 1):
+            se[:, j + 1] = _Twin(ifp.flow.models[j]).sens("F", xpe)[2]
+        _, lq_now = _nessai(
+            "ImportanceFlowProposal.compute_meta_proposal_samples", case,
+            ifp.compute_meta_proposal_samples, xe,
+        )
+        meas["ifp_earlier"] = meas.get("ifp_earlier", 0) + int(oke.sum())
+        ck.close(
+            "importance:density-of-earlier-level-changed-by-later-training",
+            lqe[oke], lq_now[oke][:, :k], tol,
+            f"log_q rows stored when the points were drawn after training "
+            f"{lvl + 1} of {n_train} vs the same points evaluated after the "
+            f"last training (columns of the proposals that existed then)",
+            sens=se[oke],
+        )
     meas["n_assert"] = ck.n_assert
     return meas
 
@@ -1454,6 +1577,14 @@ def ifp_cases(draw, reparam="any", n_train=None):
                             dims=[d], svd=False, dists=("default", "mvn"),
                             pre=False))
     del cfg["n_inputs"]
+    # user-defined base distribution with learnable parameters, given as an
+    # instance or as a class (both accepted by get_base_distribution)
+    custom = draw(st.sampled_from([None, None, None, "vf:learnable-instance",
+                                   "vf:learnable-class"]))
+    if custom is not None and cfg["ftype"] != "maf":
+        # (MaskedAutoregressiveFlow has no `distribution` argument)
+        cfg["distribution"] = custom
+        cfg.pop("distribution_kwargs", None)
     if n_train is None:
         n_train = draw(st.integers(1, 3))
     if reparam == "any":
@@ -1483,6 +1614,7 @@ def ifp_cases(draw, reparam="any", n_train=None):
         "flow_number": draw(st.sampled_from([None, None, 0, 1])),
         "n_live": draw(st.sampled_from([100, 200])),
         "n_draw": draw(st.sampled_from([5, 40])),
+        "draw_each_level": draw(st.sampled_from([True, True, False])),
         "seed": draw(_SEEDS),
     }
 
@@ -1524,6 +1656,10 @@ def classify(case):
         cl.append(f"ifp-n_train={case['n_train']}")
         if any(w == 0.0 for w in case["weights"][: case["n_train"] + 1]):
             cl.append("ifp-zero-weight-proposal")
+        if str(cfg.get("distribution")).startswith("vf:"):
+            cl.append("ifp-dist:" + cfg["distribution"][3:])
+        if case.get("draw_each_level") and case["n_train"] >= 2:
+            cl.append("ifp-draws-at-earlier-levels")
     return cl, cfg["n_blocks"] >= 2
 
 
@@ -1630,6 +1766,10 @@ def shard(seed, kind, n, stratum=None, anticipated=False):
             cl = cl + [case["kind"] + "-compared"]
         elif case["kind"] != "flow":
             cl = cl + ["empty-draw"]
+        if meas.get("reloaded"):
+            cl = cl + ["weights-file-reloaded"]
+        if meas.get("ifp_earlier"):
+            cl = cl + ["ifp-earlier-levels-compared"]
         if meas.get("starved"):
             cl = cl + ["draw-starved"]
             stats.inconclusive += 1
